@@ -20,9 +20,9 @@ from vt.main import EnumResult
 from vt.refmodels import argv as ref
 
 ID = 'C13'
-KINDS = ['enum']                # histories half: KINDS = ['explorer', 'enum'] (vt.main.run_check runs both)
+KINDS = ['explorer', 'enum']    # explorer = histories half (props/c13_hist.py), enum = inputs half (this file)
 KIND = 'enum'
-LEVEL = 'exploration'
+LEVEL = 'model_checking'
 BUDGET = {'quick': 60, 'thorough': 600}
 TECHNIQUE = ('bounded-exhaustive input enumeration against a reference model '
              '(small-scope model checking of a sequential component)')
@@ -42,7 +42,8 @@ ENUM_RULE = (
     'command line holds at least one quoting or variable token (not only `plain`); distinct_nontrivial counts '
     'distinct (cmd, args, shell) inputs of that kind.  The live shard runs a fixed subset through the real '
     'psutil.Popen (and the real /bin/sh when shell is on) with a worker that dumps argv / environ / cwd.')
-RULE = ENUM_RULE
+from props.c13_hist import GRAPH, scenarios, run, bound, HIST_RULE      # noqa: E402
+RULE = ENUM_RULE + ' || ' + HIST_RULE
 
 ASSUMPTIONS = [
     'C13 enumeration: the process-creation call is observed at circus.process.Popen (the module attribute '
